@@ -1,4 +1,5 @@
 import HsVerif.Proofs.SysViewBounds
+import HsVerif.Proofs.ReplicaCertBelow
 import HsVerif.Props.C05Chain
 /-! C05, task S14 — the "bookkeeping" hypotheses of the recovery / commit theorems, derived from reachability (or refuted).
 
@@ -12,12 +13,21 @@ import HsVerif.Props.C05Chain
 3. `RecPre'`, `KnowsAll'`, `SyncPre'`: the hypotheses without those clauses; `recPre_of_reach`, `syncPre_of_reach`;
    `recovery_from_reachable'`, `commit_after_recovery'`.
 4. Non-vacuity: the kernel-evaluated run `cvRun` (`commit_after_recovery'_nonvacuous`).
-5. What is FALSE: `highQC.view < view` and `highTC.view < view` are NOT invariants — a replica that lags behind adopts a
-   certificate of a later view and moves on by one view (`advanceView`: `newView := s.view + 1`); kernel-evaluated witness
-   `highqc_not_below_view`: reachable, all four replicas honest and in view 4, replica 4 holds a QC and a TC of view 4.
-   Hence the last clauses of `KnowsAll.qc` / `KnowsAll.tc` (`… < D.v`) are kept as hypotheses; the `_partial` lemmas name
-   the missing fact, `timeout_with_current_certificate_leaves_view` shows the mechanism that makes them true in the
-   scenario of the theorem (not derived). -/
+5. (CHANGED by task S15, `EnterViewAfter`.)  With the OLD `advanceView` (`newView := s.view + 1`) `highQC.view < view`
+   and `highTC.view < view` were NOT invariants: a replica that lags behind adopted a certificate of a later view and
+   moved on by one view only; the kernel-evaluated witness `highqc_not_below_view` showed all four replicas honest and in
+   view 4, replica 4 holding a QC and a TC of view 4.  With the repaired `advanceView` (`newView := view + 1`, the view
+   AFTER THE CERTIFICATE) the SAME run ends with replica 4 in view 5, its certificates of view 4 BELOW its view: the three
+   witnesses below keep their names and now state what the kernel evaluates on the repaired model (the lagging replica
+   jumps from view 3 to view 5).  The last clauses of `KnowsAll.qc` / `KnowsAll.tc` (`… < D.v`) are still kept as
+   hypotheses of the theorems here; the `_partial` lemmas name the missing fact.
+6. (NEW, task S15.)  On the repaired model `highQC.view < view ∧ highTC.view < view` IS an invariant under the plain
+   timeout rule (`c.agg = false`): `high_certificates_below_view` (every run of one replica),
+   `sys_high_certificates_below_view` (every reachable state of the system, any number of Byzantine replicas) — helpers
+   in Proofs/ReplicaCertBelow.lean.  Hence `knowsAll_qc_view_of_reach` / `knowsAll_tc_view_of_reach`: the last clauses
+   of `KnowsAll.qc` / `KnowsAll.tc` now FOLLOW from reachability for replicas in view `D.v`.  (Under the aggregate timeout
+   rule a plain QC still refreshes the high QC without moving the view — `fix:` 4f3d40f —, so `highQC.view < view` is
+   not an invariant for `c.agg = true`.) -/
 set_option linter.unusedVariables false
 namespace HsVerif.Props.C05Pre
 open HsVerif.Model HsVerif.Proofs HsVerif.Props.C01Sys HsVerif.Props.C01SysWF HsVerif.Props.C03
@@ -75,8 +85,11 @@ theorem knowsAll_qc_blockview_of_reach (k : Keys) (C : SysCfg) (σ : SysState) (
     exact hpv.symm
 
 /-- `KnowsAll.qc`, last clause — PARTIAL: from reachability it follows only with the hypothesis `hcu` that the replica holds
-no certificate of its own view or later ("caught up"); `highqc_not_below_view` shows that `hcu` is not a consequence
-of reachability, not even when all replicas are honest and in the same view -/
+no certificate of its own view or later ("caught up").  With the old `advanceView` the witness `highqc_not_below_view`
+refuted `hcu` in a reachable state; on the repaired model (`EnterViewAfter`, task S15) that witness has the replica in the
+view after its certificates, and `hcu` holds after every `advanceView` under the plain timeout rule (not under the
+aggregate rule, where a plain QC refreshes the high QC without moving the view): `knowsAll_qc_view_of_reach` below
+discharges `hcu` by the new invariant `sys_high_certificates_below_view` -/
 theorem knowsAll_qc_view_of_reach_partial (k : Keys) (C : SysCfg) (D : RecData) (σ : SysState) (hr : Reach k C σ)
     (j : Nat) (s : RState) (hl : σ.reps.lookup j = some s) (hv : s.view = D.v) (hq : s.highQC = D.hq j)
     (hcu : s.highQC.view < s.view) : (D.hq j).view < D.v := by
@@ -87,6 +100,34 @@ theorem knowsAll_tc_view_of_reach_partial (k : Keys) (C : SysCfg) (D : RecData) 
     (j : Nat) (s : RState) (hl : σ.reps.lookup j = some s) (hv : s.view = D.v) (ht : (D.htc j).view ≤ s.highTC.view)
     (hcu : s.highTC.view < s.view) : (D.htc j).view < D.v := by
   omega
+
+/-- **(NEW, task S15) the high certificates are below the view** — along every run of one replica under the plain timeout
+rule (any rule set, any scheme, any events).  False for the old `advanceView` (`view + 1`), true since `EnterViewAfter`. -/
+theorem high_certificates_below_view (k : Keys) (c : RCfg) (hagg : c.agg = false) (es : List Ev) :
+    let s := runEvents k c (start k c {}).1 es
+    s.highQC.view < s.view ∧ s.highTC.view < s.view :=
+  runEvents_cb k c hagg es _ (start_cb k c hagg {} cb_init)
+
+/-- **… in every reachable state of the system of replica models** (all replicas use the plain timeout rule; any number
+of Byzantine replicas, whatever the adversary delivers) -/
+theorem sys_high_certificates_below_view (k : Keys) (C : SysCfg) (hagg : ∀ i, (C.rcfg i).agg = false)
+    (σ : SysState) (hr : Reach k C σ) (i : Nat) (s : RState) (hl : σ.reps.lookup i = some s) :
+    s.highQC.view < s.view ∧ s.highTC.view < s.view :=
+  reach_cb k C hagg σ hr i s hl
+
+/-- `KnowsAll.qc`, last clause — now DERIVED from reachability (plain timeout rule) -/
+theorem knowsAll_qc_view_of_reach (k : Keys) (C : SysCfg) (hagg : ∀ i, (C.rcfg i).agg = false) (D : RecData)
+    (σ : SysState) (hr : Reach k C σ)
+    (j : Nat) (s : RState) (hl : σ.reps.lookup j = some s) (hv : s.view = D.v) (hq : s.highQC = D.hq j) :
+    (D.hq j).view < D.v :=
+  knowsAll_qc_view_of_reach_partial k C D σ hr j s hl hv hq (sys_high_certificates_below_view k C hagg σ hr j s hl).1
+
+/-- `KnowsAll.tc`, last clause — now DERIVED from reachability (plain timeout rule) -/
+theorem knowsAll_tc_view_of_reach (k : Keys) (C : SysCfg) (hagg : ∀ i, (C.rcfg i).agg = false) (D : RecData)
+    (σ : SysState) (hr : Reach k C σ)
+    (j : Nat) (s : RState) (hl : σ.reps.lookup j = some s) (hv : s.view = D.v) (ht : (D.htc j).view ≤ s.highTC.view) :
+    (D.htc j).view < D.v :=
+  knowsAll_tc_view_of_reach_partial k C D σ hr j s hl hv ht (sys_high_certificates_below_view k C hagg σ hr j s hl).2
 
 /-! ## 3. the weakened hypotheses -/
 
@@ -252,7 +293,7 @@ theorem derived_clauses_evaluated :
 end NonVacuity
 
 
-/-! ## 6. what is FALSE: the high QC and the high TC are not bounded by the view -/
+/-! ## 6. the lagging replica: certificates of a later view (was: "what is FALSE"; see the header, item 5) -/
 section Witness
 
 /-- six rounds of the fault-free synchronous run of `recCfg` (four honest replicas, fixed leader 1, chained HotStuff):
@@ -269,13 +310,13 @@ def wQC : QC := ⟨some (.multi .ecdsa [⟨1, 13⟩, ⟨2, 14⟩, ⟨3, 15⟩]),
 /-- the timeout certificate of view 4, from the timeout signatures of replicas 1, 2, 3 -/
 def wTC : TC := ⟨some (.multi .ecdsa [⟨1, 16⟩, ⟨2, 17⟩, ⟨3, 18⟩]), 4⟩
 /-- the network hands both certificates to replica 4 (still in view 3), which can fetch `P4`: it verifies them, adopts them
-as high QC and high TC — and moves on by ONE view, to view 4 -/
+as high QC and high TC — and enters the view AFTER them, view 5 (the old model: view 4, one view on) -/
 def wF : SysState :=
   sysStep exKeys recCfg
     (deliverAll exKeys recCfg (sysStep exKeys recCfg wC.1 (.fetchable 4 [("P4", wP4)]), [])
       [(4, .newview 1 { qc := some wQC, tc := some wTC })]).1
     (.fetchable 4 [])
-/-- … and then replica 4 times out in view 4 -/
+/-- … and then the (stale) local timeout of view 4 fires at replica 4 -/
 def wG : SysState × Msgs := deliverAll exKeys recCfg (wF, []) [(4, .localTimeout 4)]
 
 theorem wF_reach : Reach exKeys recCfg wF :=
@@ -285,33 +326,36 @@ theorem wF_reach : Reach exKeys recCfg wF :=
 theorem wG_reach : Reach exKeys recCfg wG.1 := deliverAll_reach' exKeys recCfg _ _ wF_reach
 
 set_option maxRecDepth 100000 in
-/-- **`highQC.view < view` and `highTC.view < view` are FALSE in reachable states — even when every replica is honest and
-all replicas are in the same view**: `wF` is reachable, all four replicas (all honest) are in view 4, nothing is queued
-anywhere, and replica 4 holds a high QC of view 4 and a high TC of view 4.  (A replica that lags behind learns a
-certificate of a later view `u` and moves on by ONE view — `advanceView`: `newView := s.view + 1` —, so its certificates
-can be as new as its view, or newer.)  So the clauses `(D.hq i).view < D.v`, `(D.htc i).view < D.v` of `KnowsAll` do not
-follow from reachability and "everybody is in view `D.v`". -/
+/-- RESTATED (task S15; the name is historical — with the old `advanceView` this witness had all four replicas in view 4
+and replica 4 holding a QC and a TC of view 4, refuting `highQC.view < view`).  On the repaired model the same reachable
+run — every replica honest, nothing queued anywhere — ends with replicas 1, 2, 3 in view 4 and the lagging replica 4,
+which adopted the QC and the TC of view 4 while in view 3, in view 5 = certified view + 1: its high QC and high TC
+(view 4) are BELOW its view; its advancement records are 1 → 2, 2 → 3, 3 → 5. -/
 theorem highqc_not_below_view :
     Reach exKeys recCfg wF ∧ recCfg.honest.length = recCfg.n ∧
-    (∀ j ∈ recCfg.honest, (wF.reps.lookup j).map (fun s => (s.view, s.queue.length)) = some (4, 0)) ∧
-    (wF.reps.lookup 4).map (fun s => (s.highQC.view, s.highTC.view, s.highQC, s.highTC)) = some (4, 4, wQC, wTC) :=
-  ⟨wF_reach, rfl, by decide +kernel, by decide +kernel⟩
+    recCfg.honest.map (fun j => (wF.reps.lookup j).map (fun s => (s.view, s.queue.length))) =
+      [some (4, 0), some (4, 0), some (4, 0), some (5, 0)] ∧
+    (wF.reps.lookup 4).map (fun s => (s.highQC.view, s.highTC.view, s.highQC, s.highTC)) = some (4, 4, wQC, wTC) ∧
+    (wF.reps.lookup 4).map (fun s => (s.ghost.filter GRec.isAdv).map (fun r => (r.advFrom, r.advTo))) =
+      some [(1, 2), (2, 3), (3, 5)] :=
+  ⟨wF_reach, rfl, by decide +kernel, by decide +kernel, by decide +kernel⟩
 
+set_option maxRecDepth 100000 in
+/-- RESTATED (task S15, as `highqc_not_below_view`): replica 4 holds a TC of view 4 and is in view 5 -/
 theorem hightc_not_below_view :
-    Reach exKeys recCfg wF ∧ (∀ j ∈ recCfg.honest, (wF.reps.lookup j).map (·.view) = some 4) ∧
-    (wF.reps.lookup 4).map (fun s => s.highTC.view) = some 4 :=
+    Reach exKeys recCfg wF ∧ recCfg.honest.map (fun j => (wF.reps.lookup j).map (·.view)) = [some 4, some 4, some 4, some 5] ∧
+    (wF.reps.lookup 4).map (fun s => (s.highTC.view, s.view)) = some (4, 5) :=
   ⟨wF_reach, by decide +kernel, by decide +kernel⟩
 
 set_option maxRecDepth 100000 in
-/-- **why the clauses hold in the scenario of the recovery theorem all the same** (not derived here): when replica 4 —
-holding certificates of its own view 4 — times out, its own timeout message carries them, `advanceView` runs on them and
-the replica LEAVES the view: it is in view 5, with its timeout message of view 4 in its collector.  A replica that is
-still in the view `v` of its own timeout message (`RColl`) held only older certificates when it timed out, and has absorbed
-only older ones since. -/
+/-- RESTATED (task S15; with the old `advanceView` replica 4 was still in view 4, timed out there, and its own timeout
+message carrying the certificates of view 4 moved it to view 5).  On the repaired model replica 4 is already in view 5
+when the local timeout of view 4 fires: the event is stale and changes nothing — view 5, no timeout message collected,
+certificates of view 4. -/
 theorem timeout_with_current_certificate_leaves_view :
     Reach exKeys recCfg wG.1 ∧
     (wG.1.reps.lookup 4).map (fun s => (s.view, s.timeouts.map (fun t => (t.id, t.view)), s.highQC.view, s.highTC.view)) =
-      some (5, [(4, 4)], 4, 4) :=
+      some (5, [], 4, 4) :=
   ⟨wG_reach, by decide +kernel⟩
 
 end Witness
